@@ -860,6 +860,9 @@ pub fn witnesses() -> Vec<String> {
     "id: rwrel\nlanguage: js\nrule: {kind: string_fragment, pattern: $V}\ntransform: {T: {rewrite: {rewriters: [rw], source: $V, joinBy: \", \"}}}\nrewriters:\n- {id: rw, rule: {inside: {kind: string, stopBy: end}}, fix: \"($V)\"}\nfix: $T\n".into(),
     "id: rwrel2\nlanguage: js\nrule: {kind: identifier, pattern: $V}\ntransform: {T: {rewrite: {rewriters: [rw], source: $V}}}\nrewriters:\n- {id: rw, rule: {inside: {kind: program, stopBy: end}}, fix: \"($V)\"}\nfix: $T\n".into(),
     "id: rwrel3\nlanguage: js\nrule: {kind: call_expression, pattern: $V}\ntransform: {T: {rewrite: {rewriters: [rw], source: $V}}}\nrewriters:\n- {id: rw, rule: {precedes: {kind: identifier, stopBy: end}}, fix: \"<>\"}\nfix: $T\n".into(),
+    "id: conv1\nlanguage: js\nrule: {kind: identifier, pattern: $V}\ntransform: {X: {convert: {source: $V, toCase: snakeCase}}}\nfix: $X\n".into(),
+    "id: conv2\nlanguage: js\nrule: {kind: identifier, pattern: $V}\ntransform: {X: {convert: {source: $V, toCase: camelCase}}, Y: {convert: {source: $V, toCase: kebabCase, separatedBy: [caseChange]}}, Z: {convert: {source: $V, toCase: pascalCase, separatedBy: [underscore, caseChange]}}}\nfix: $X $Y $Z\n".into(),
+    "id: conv3\nlanguage: js\nrule: {kind: identifier, pattern: $V}\ntransform: {X: {convert: {source: $V, toCase: capitalize}}, Y: {convert: {source: $V, toCase: upperCase}}, Z: {convert: {source: $V, toCase: lowerCase}}}\nfix: $X $Y $Z\n".into(),
     "id: of2\nlanguage: js\nutils:\n  U: {kind: identifier, nthChild: {position: 1, ofRule: {matches: W}}}\n  W: {any: [{matches: U}]}\nrule: {kind: identifier, matches: U}\n".into(),
   ]
 }
